@@ -129,6 +129,12 @@ class AbsField:
             def f(it_, markers, wire, offset):
                 run.oblige(f'{it_.where()}#call[Field.skipping_process].pre:offset_in_wire',
                            And(zint(offset) >= 0, zint(offset) <= zint(wire.length)))
+                head = run.ghost.get('parse.head_offset')
+                if head is not None:
+                    # a skipped field (an OffsetMarker records it) is told where the element that was found STARTS:
+                    # the signed / digest-covered ranges begin there, not at the end of the last recognised element
+                    run.oblige(f'{it_.where()}#call[Field.skipping_process].pre:told_the_start_of_the_found_element',
+                               Eq(zint(offset), zint(head)))
                 return None
             return _M(f)
         if name == '__set__':
@@ -314,14 +320,21 @@ def _search_inv(it, env, g):
             'no_match_before': z3.ForAll([j], z3.Implies(z3.And(j >= fp, j < i), z3.Select(f.types, j) != typ))}
 
 
+def _havoc_typ(it, env, g):
+    # runs after `offset` was havocked (targets are havocked in name order): remember the scan position at the loop head,
+    # i.e. where the element examined in this iteration starts
+    it.run.ghost['parse.head_offset'] = env['offset']
+    return it.run.fresh_int('typ')
+
+
 @contract
 class model_parse(Contract):
     fn = tm.TlvModel.parse
-    props = ('C07', 'C08', 'C06', 'C10')
+    props = ('C07', 'C08', 'C06', 'C10', 'C02')
     doc = ('TlvModel.parse: every element handed to a field lies entirely inside the wire; a recognised element is matched to '
            'the first field of that type at or after the current position; an unrecognised critical element raises DecodeError '
            'unless ignore_critical, an unrecognised non-critical one is skipped and changes nothing; each iteration consumes '
-           '>= 2 bytes (linear time); it returns only after the whole wire has been examined element by element; only '
+           '>= 2 bytes (linear time); skipped fields (offset markers) are told the start of the element that was found; it returns only after the whole wire has been examined element by element; only '
            'documented decoding errors escape')
 
     def setup(self, cx):
@@ -339,7 +352,7 @@ class model_parse(Contract):
         1: LoopSpec(_parse_inv, var=lambda it, env, g: zint(env['wire'].length) - zint(env['offset']),
                     ghost=lambda it, env, g: {'fields': it.run.ghost['parse.fields'], 'ignore_critical': it.run.ghost['parse.ic']},
                     step=_parse_step,
-                    havoc={'i': lambda it, env, g: it.run.fresh_int('i'), 'typ': lambda it, env, g: it.run.fresh_int('typ'),
+                    havoc={'i': lambda it, env, g: it.run.fresh_int('i'), 'typ': _havoc_typ,
                            'length': lambda it, env, g: it.run.fresh_int('length'),
                            'val': lambda it, env, g: None, 'cur_field': lambda it, env, g: None}),
         2: LoopSpec(_search_inv, var=lambda it, env, g: env['ret'].fields.n - zint(env['i'])),
